@@ -293,7 +293,7 @@ def run(tier):
     ck.encode(CxxParser._parse_cv_ptr_or_fn, CxxParser._parse_cv_ptr, CxxParser._parse_array_type, CxxParser._parse_pqname, CxxParser._parse_pqname_fundamental,
               CxxParser._parse_template_specialization, CxxParser._parse_trailing_return_type, CxxParser._parse_parameter, BoundedTokenStream)
     ctxs = contexts()
-    ck.bounds = dict(tree_depth=depth, base_types=6, wrappers=G.WRAPS, contexts=[c[0] for c in ctxs], token_strings=f"<= {ntok} tokens over {T_ALPHA}", template_argument_pairs=len(TARGS) ** 2)
+    ck.bounds = dict(tree_depth=depth, base_types=len(G.base_types()), wrappers=G.WRAPS, contexts=[c[0] for c in ctxs], token_strings=f"<= {ntok} tokens over {T_ALPHA}", template_argument_pairs=len(TARGS) ** 2)
     ck.assume("the independent printer follows the C++ inside-out rule (parentheses around pointer / reference declarators of arrays and functions)",
               "only C++-legal nestings are generated (no pointer / reference to reference, no arrays of references or functions, no functions returning arrays or functions)",
               "a top-level function type is only used where C++ allows one (typedef, template argument)")
@@ -304,7 +304,7 @@ def run(tier):
         g = dict(DEPTH=depth, NTOK=ntok, EXCUSE=excuse)
         tw = chrun.run(__name__, "h_tree", [(0, 0)], timeout=60, globs=dict(g, TWIN=True), pool=pool)
         chrun.record(ck, tw, "type trees reachability twin", expect="refuted")
-        shards = [(a, b) for a in range(len(ctxs)) for b in range(6)]
+        shards = [(a, b) for a in range(len(ctxs)) for b in range(len(G.base_types()))]
         rt = chrun.run(__name__, "h_tree", shards, timeout=(200 if tier == "quick" else 2400), globs=g, pool=pool)
         chrun.record(ck, rt, "every legal type tree in every context decodes to itself", bound=f"depth <= {depth}, {len(ctxs)} contexts")
         tw = chrun.run(__name__, "h_tok", [(8,)], timeout=60, globs=dict(g, TWIN=True), pool=pool)
